@@ -290,7 +290,7 @@ def run(ctx, sf):
         one_pair(ctx, sf, base, kind, var, reqs, pending, gaussian_only=not any(
             progs.category(o["cls"]) == "meas" for o in base["ops"] + var["ops"]))
     rng = ctx.rng
-    for k in range(ctx.n(60, 600)):
+    for k in range(ctx.n(250, 2000)):
         gaussian_only = (k % 2 == 0)
         base = gen_base(rng, gaussian_only)
         for kind, var in variants(rng, base):
